@@ -94,10 +94,10 @@ def check_one(job):
             ana = float(np.sum(vm[s] * dlt))
             n += 1
             excess = abs(g - ana) - 20 * est - 2e-7 * scale * np.abs(dlt).sum() / nao - 1e-11 * abs(exc) / h
-            if excess > worst:
+            if not (excess <= worst):      # NaN counts as a violation
                 worst = excess
                 detail = {"spin": s, "direction": name, "fd": g, "analytic": ana, "est": est}
-    if worst > 0:
+    if worst > 0 or worst != worst:
         viol.append({"site": "vmat-vs-fd:" + tag, "detail": dict(detail, cfg=cfg, excess=worst)})
     return {"viol": viol, "n": n, "proj": proj, "tag": tag}
 
@@ -129,7 +129,7 @@ def main():
     for k, c in enumerate(chosen):
         u = bool(k % 2)
         jobs.append({"id": k, "cfg": c, "seed": ck.seed * 1000 + k, "unrestricted": u, "mol": "OH" if u else "H2O",
-                     "basis": "sto-3g" if (quick or k % 5) else "6-31g", "ndir": 2})
+                     "basis": ("cc-pvdz" if k % 4 == 0 else "sto-3g") if quick else ("cc-pvdz", "sto-3g", "6-31g*", "sto-3g", "6-31g")[k % 5], "ndir": 2})
     ck.log("replaying %d configurations end to end" % len(jobs))
     results = run_workers(os.path.abspath(__file__), [[j] for j in jobs] and jobs, nproc=16, timeout=7000)
     for res in results:
